@@ -471,3 +471,45 @@ def must_reach_closure(model, base_pred, assumptions=(), scope=None, max_iter=30
         if not changed:
             break
     return M
+
+
+def is_method(c, trait_suffix, method):
+    """call of `method` of a trait, whether resolved to an impl (`<T as Trait>::m`) or to the provided default (`Trait::m`)"""
+    n = c.name
+    return n.endswith(trait_suffix + ">::" + method) or n.endswith(trait_suffix + "::" + method)
+
+
+def const_value(fn, op, depth=8):
+    """integer value of an operand if it is a compile-time constant expression (consts, casts, +,-,* of consts)"""
+    if depth <= 0 or op is None:
+        return None
+    if op[0] == "k":
+        return op[4]
+    pl = operand_place(op)
+    if pl is None:
+        return None
+    l, proj = pl
+    ds = fn.defs().get(l, [])
+    if len(ds) != 1 or ds[0][0] != "stmt":
+        return None
+    rv = ds[0][3]
+    if proj:
+        # (_t.0) of a checked arithmetic tuple
+        if len(proj) == 1 and proj[0][0] == "f" and proj[0][1] == 0 and rv[0] == "bin" and rv[1].endswith("WithOverflow"):
+            a = const_value(fn, rv[2], depth - 1)
+            b = const_value(fn, rv[3], depth - 1)
+            if a is None or b is None:
+                return None
+            return {"Add": a + b, "Sub": a - b, "Mul": a * b}.get(rv[1][:3])
+        return None
+    if rv[0] == "use":
+        return const_value(fn, rv[1], depth - 1)
+    if rv[0] == "cast":
+        return const_value(fn, rv[2], depth - 1)
+    if rv[0] == "bin" and rv[1] in ("Add", "Sub", "Mul", "AddUnchecked", "SubUnchecked", "MulUnchecked"):
+        a = const_value(fn, rv[2], depth - 1)
+        b = const_value(fn, rv[3], depth - 1)
+        if a is None or b is None:
+            return None
+        return {"Add": a + b, "Sub": a - b, "Mul": a * b}.get(rv[1][:3])
+    return None
